@@ -34,8 +34,7 @@ func usesValueInCall(in ssa.Instruction, v ssa.Value) bool {
 
 // onlyAllowedControl: the block's control dependences (modulo error exits) are loop tests or satisfy allow.
 func onlyAllowedControl(p *Program, b *ssa.BasicBlock, allow func(c cond) bool) (bool, string) {
-	ff := factsOf(b.Parent())
-	for _, c := range ff.transitiveCDeps(b, true) {
+	for _, c := range effectiveCDeps(b, true) {
 		if isLoopTest(c) || allow(c) {
 			continue
 		}
@@ -322,14 +321,30 @@ type attrSrc struct {
 	key  string
 }
 
-// attrRead: v is getAttrValue(elem, "key") (possibly through a phi-free copy): returns elem and key.
+// attrRead: v is the result of a call that reads an attribute of an element — a call receiving an
+// *etree.Element and a constant attribute name (getAttrValue(e, "k"), e.SelectAttrValue("k", ""), ...):
+// returns the element and the name.
 func attrRead(v ssa.Value) attrSrc {
 	c, ok := v.(*ssa.Call)
-	if !ok || c.Call.StaticCallee() == nil || c.Call.StaticCallee().Name() != "getAttrValue" || len(c.Call.Args) != 2 {
+	if !ok {
 		return attrSrc{}
 	}
-	key, _ := constString(c.Call.Args[1])
-	return attrSrc{elem: c.Call.Args[0], key: key}
+	var out attrSrc
+	for _, a := range c.Call.Args {
+		if out.elem == nil && strings.HasSuffix(a.Type().String(), "etree.Element") {
+			out.elem = a
+			continue
+		}
+		if out.key == "" {
+			if k, ok := constString(a); ok {
+				out.key = k
+			}
+		}
+	}
+	if out.elem == nil || out.key == "" {
+		return attrSrc{}
+	}
+	return out
 }
 
 func nameOf(v ssa.Value) string {
